@@ -349,6 +349,48 @@ fn replay(history: &[Vec<Event>], on_disk: bool) -> Result<World, String> {
     Ok(w)
 }
 
+/// re-executes a recorded history (the `Debug` text of the batches) on fresh objects and judges the final state
+pub fn replay_history(v: &serde_json::Value) -> i32 {
+    let text = v["history"].as_str().unwrap_or("");
+    let on_disk = v["backend"].as_str().map(|b| b.contains("file system")).unwrap_or(false);
+    let mut history: Vec<Vec<Event>> = Vec::new();
+    let batch_re = regex::Regex::new(r"\[((?:[A-Za-z]+\([^)]*\)(?:, )?)*)\]").unwrap();
+    let event_re = regex::Regex::new(r"[A-Za-z]+\([^)]*\)").unwrap();
+    let inner = text.strip_prefix('[').and_then(|t| t.strip_suffix(']')).unwrap_or(text);
+    for b in batch_re.captures_iter(inner) {
+        let mut batch = Vec::new();
+        for e in event_re.find_iter(&b[1]) {
+            match EVENTS.iter().find(|known| format!("{:?}", known) == e.as_str()) {
+                Some(known) => batch.push(*known),
+                None => {
+                    println!("unknown event {} in the recorded history", e.as_str());
+                    return 2;
+                }
+            }
+        }
+        history.push(batch);
+    }
+    println!("replaying {:?} ({})", history, if on_disk { "temporary directory" } else { "in-memory resources" });
+    match replay(&history, on_disk) {
+        Err(e) => {
+            println!("{}", e);
+            1
+        }
+        Ok(w) => {
+            let problems = judge(&w);
+            for p in &problems {
+                println!("{}", p);
+            }
+            if problems.is_empty() {
+                println!("the output tree equals the fresh run after this history");
+                0
+            } else {
+                1
+            }
+        }
+    }
+}
+
 /// the oracle: a fresh run over the final inputs and configuration
 fn judge(w: &World) -> Vec<String> {
     judge_hiding(w, &[])
